@@ -390,3 +390,9 @@ def check(cx):
     from . import c18
     cx.include(c18, {"C18.2"}, "C04.10", "shared with C18.2: a row whose newest version was deleted by a transaction committed before the snapshot is "
                "hidden before older versions are considered; otherwise a committed DELETE of an updated row is not honoured", floor=3)
+
+    # ---- C04.11 (construct shared with C09.4) ------------------------------------------------------------------------
+    from . import c09 as _c09
+    cx.include(_c09, {"C09.4"}, "C04.11", "shared with C09.4: the persisted aborted set is written and read back with one bit layout (the "
+               "loader is the inverse of the membership test); an aborted id that the loader skips is, after a reopen, neither active "
+               "nor aborted for any snapshot - its rolled-back rows are visible as committed", floor=3)
